@@ -80,8 +80,29 @@ func cacheKey(kind byte, digest hotstuff.Hash, sig hotstuff.QuorumSignature) str
 	participants.ForEach(func(id hotstuff.ID) {
 		_, _ = key.Write(id.ToBytes())
 	})
-	_, _ = key.Write(sig.ToBytes())
+	// A multi-signature's bytes are the concatenation of its parts, which says nothing about where one
+	// part ends and the next begins: the same bytes split differently between the same signers are a
+	// different signature. So the parts are written with their lengths.
+	switch s := sig.(type) {
+	case crypto.Multi[*crypto.ECDSASignature]:
+		writeParts(&key, s)
+	case crypto.Multi[*crypto.EDDSASignature]:
+		writeParts(&key, s)
+	default:
+		_, _ = key.Write(sig.ToBytes())
+	}
 	return key.String()
+}
+
+// writeParts writes the length-prefixed bytes of every part of a multi-signature.
+func writeParts[T crypto.Signature](key *strings.Builder, parts crypto.Multi[T]) {
+	for _, part := range parts {
+		b := part.ToBytes()
+		var n [4]byte
+		binary.LittleEndian.PutUint32(n[:], uint32(len(b)))
+		_, _ = key.Write(n[:])
+		_, _ = key.Write(b)
+	}
 }
 
 // Sign signs a message and adds it to the cache for use during verification.
